@@ -77,6 +77,12 @@ int vh_case(uint64_t id, int tier)
                 vh_fail("sem:aligned-file-not-read", "a legal aligned FASTA file could not be read");
                 return VH_OK;
         }
+        if(a.maxname > 200){
+                /* the property speaks of names of 1..200 characters */
+                af_free(&a);
+                vh_count("names_longer_than_200_not_judged");
+                return VH_SKIP;
+        }
         unlink(p1);
         unlink(p2);
         vh_add("library_calls", 4);
